@@ -654,16 +654,15 @@ theorem durable_lookup_linked (t0 : List Leaf) (h0 : Trie.SnapOk t0) (tmp : Opti
         funext pk
         exact heq pk
       have hi := inv_freshSt ht.1
-      have hset := settled_freshSt t
       refine ⟨t, rfl, ht.1, heq, habs, ?_, ?_, ?_⟩
       · intro k
         rw [← habs]
         exact TrieBuf.lookup_agrees hi k
       · rw [← habs]
         exact TrieBuf.entries_agrees hi
-      · intro q hq
+      · intro q _
         rw [← habs]
-        exact TrieBuf.fuzzy_agrees hi q hq (TrieBuf.settled_not_fuzzyClass hset q)
+        exact TrieBuf.fuzzy_agrees hi q
 
 /-- non-vacuity of `durable_lookup_linked`: learn 測 under ㄘㄜˋ, update it while the first snapshot
     is being written, drop the dictionary: the run exists, ends closed, and the file holds the
